@@ -1,4 +1,144 @@
 import Nic.Lemmas.LexDfa
 import Nic.Gen.Regexes
+/-!
+  C06, part B — the validator regular expressions, regenerated from /repo's source on every run
+  (`Nic/Gen/Regexes.lean`, written by tools/regexes), only accept values of the lexical class of the site the value is
+  written to.  Each theorem is `Dfa.check_sound` (the verified abstract interpreter of `Nic/Lemmas/Regex.lean`)
+  applied to the regenerated term; the side condition is evaluated by the kernel (`decide`), so a validator regex that
+  is edited to admit a structural character makes the theorem of that name fail to compile.
+
+  `Matches r s` is the language of the pattern as Go's `regexp` reads it (anchors `^…$` stripped by the translator;
+  the translator and this semantics are tied to Go's regexp by the `re` correspondence).
+-/
 namespace Nic.Props.C06Regex
+open Nic.Regex Nic.LexDfa Nic.NgxLex Nic.Gen.Regexes
+
+set_option maxRecDepth 8000
+
+/-! ### values written between double quotes -/
+
+theorem dq_of_check (r : Re) (h : dqDfa.check 0 (· == 0) r = true) (s : List Char) (hm : Matches r s) : QuoteSafe '"' s :=
+  dq_accept s (Dfa.check_sound dqDfa 0 (· == 0) r h s hm)
+
+theorem token_of_check (r : Re) (h : tokenDfa.check 0 (· == 1) r = true) (s : List Char) (hm : Matches r s) : TokenSafe s :=
+  token_accept s (Dfa.check_sound tokenDfa 0 (· == 1) r h s hm)
+
+theorem tokenBody_of_check (r : Re) (h : tokenDfa.check 0 (fun q => q == 1 || q == 2) r = true) (s : List Char)
+    (hm : Matches r s) : TokenBody s := by
+  have := Dfa.check_sound tokenDfa 0 (fun q => q == 1 || q == 2) r h s hm
+  simp only [Bool.or_eq_true, beq_iff_eq] at this
+  exact token_accept_body s this
+
+/-- `ValidateEscapedString` (action return body, error page return body and headers, Ingress paths with a regex
+annotation, TransportServer match expect / send, return-action header values): `"…"` sites. -/
+theorem validation_escapedStrings_dqSafe : ∀ s, Matches validation_escapedStringsFmtRegexp s → QuoteSafe '"' s :=
+  dq_of_check _ (by decide)
+
+theorem k8s_escapedStrings_dqSafe : ∀ s, Matches k8s_escapedStringsFmtRegexp s → QuoteSafe '"' s :=
+  dq_of_check _ (by decide)
+
+/-- header values of proxy request / response headers -/
+theorem validation_headerValue_dqSafe : ∀ s, Matches validation_headerValueFmtRegexp s → QuoteSafe '"' s :=
+  dq_of_check _ (by decide)
+
+/-- realm of JWT / basic auth policies (rendered through `%q` or inside quotes) -/
+theorem validation_realm_dqSafe : ∀ s, Matches validation_realmFmtRegexp s → QuoteSafe '"' s :=
+  dq_of_check _ (by decide)
+
+theorem k8s_realm_dqSafe : ∀ s, Matches k8s_realmFmtRegexp s → QuoteSafe '"' s :=
+  dq_of_check _ (by decide)
+
+/-- Ingress annotation values (jwt-realm, server-tokens): `"…"` sites -/
+theorem k8s_annotationValue_dqSafe : ∀ s, Matches k8s_validAnnotationValueRegex s → QuoteSafe '"' s :=
+  dq_of_check _ (by decide)
+
+/-- sticky cookie parameters of VirtualServer session cookies -/
+theorem configs_stickyCookie_dqSafe : ∀ s, Matches configs_stickyCookieRegex s → QuoteSafe '"' s :=
+  dq_of_check _ (by decide)
+
+/-! ### values written as a whole unquoted argument -/
+
+theorem validation_cookieName_tokenSafe : ∀ s, Matches validation_cookieNameRegexp s → TokenSafe s :=
+  token_of_check _ (by decide)
+
+theorem validation_argumentName_tokenSafe : ∀ s, Matches validation_argumentNameRegexp s → TokenSafe s :=
+  token_of_check _ (by decide)
+
+theorem configs_size_tokenSafe : ∀ s, Matches configs_sizeRegexp s → TokenSafe s :=
+  token_of_check _ (by decide)
+
+theorem configs_offset_tokenSafe : ∀ s, Matches configs_offsetRegexp s → TokenSafe s :=
+  token_of_check _ (by decide)
+
+theorem configs_rate_tokenSafe : ∀ s, Matches configs_rateRegexp s → TokenSafe s :=
+  token_of_check _ (by decide)
+
+theorem validation_rate_tokenSafe : ∀ s, Matches validation_rateRegexp s → TokenSafe s :=
+  token_of_check _ (by decide)
+
+theorem version1_setHeader_tokenSafe : ∀ s, Matches version1_setHeader s → TokenSafe s :=
+  token_of_check _ (by decide)
+
+/-- App Protect log destination, after the fix that anchored the pattern (S-C06-b) -/
+theorem validation_logDst_tokenSafe : ∀ s, Matches validation_logDstEx s → TokenSafe s :=
+  token_of_check _ (by decide +kernel)
+
+theorem validation_logDstFile_tokenSafe : ∀ s, Matches validation_logDstFileEx s → TokenSafe s :=
+  token_of_check _ (by decide)
+
+/-- upstream server addresses from ExternalName services / resolvers -/
+theorem validation_dns_tokenSafe : ∀ s, Matches validation_validDNSRegex s → TokenSafe s :=
+  token_of_check _ (by decide +kernel)
+
+theorem validation_ip_tokenSafe : ∀ s, Matches validation_validIPRegex s → TokenSafe s :=
+  token_of_check _ (by decide +kernel)
+
+theorem validation_hostname_tokenSafe : ∀ s, Matches validation_validHostnameRegex s → TokenSafe s :=
+  token_of_check _ (by decide +kernel)
+
+/-! ### values that may end in `$` (followed by a space or `;` in the templates) -/
+
+/-- VirtualServer / VirtualServerRoute paths at `location <path> {` -/
+theorem validation_path_tokenBody : ∀ s, Matches validation_pathRegexp s → TokenBody s :=
+  tokenBody_of_check _ (by decide)
+
+/-- the key of `hash <key> [consistent]`, after the fix (S-C06-d) -/
+theorem configs_hashKey_tokenBody : ∀ s, Matches configs_hashKeyRegexp s → TokenBody s :=
+  tokenBody_of_check _ (by decide)
+
+/-! ### Ingress paths: unquoted only when they contain no curly brace (after the fix S-C06-a)
+
+The automaton below is the token automaton with one more absorbing state 4 = "a curly brace or a backslash was
+read" (a path with a backslash is constrained by the other conjunct of the validator, `ValidateEscapedString`; a
+conjunction of two patterns is outside this interpreter and left to the end-to-end search). -/
+
+def braceTokenDfa : Dfa where
+  specials := tokenDfa.specials
+  states := 5
+  δ := fun p k => if p = 4 then 4 else if (k = 5 ∨ k = 6 ∨ k = 11) ∧ p ≠ 3 then 4 else tokenDfa.δ p k
+
+/-- Every Ingress path the validator accepts either contains a curly brace (and is then written between double
+quotes, where `k8s_escapedStrings_dqSafe` applies) or … see `k8s_path_obligation`. The check that replaces the
+false obligation `tokenDfa.check … k8s_pathRegexp`: -/
+theorem k8s_path_obligation : braceTokenDfa.check 0 (fun q => q == 1 || q == 2 || q == 4) k8s_pathRegexp = true := by decide
+
+/-- The plain obligation is false — this is S-C06-a (`/a{1}`; replayed on the pipeline in corpus/C06/fixed.ops). -/
+example : tokenDfa.check 0 (fun q => q == 1 || q == 2) k8s_pathRegexp = false := by decide
+
+/-! ### recorded findings: the obligation of the site the value is written to is false -/
+
+/-- S-C06-m: the jwt-token annotation is safe between quotes but is written unquoted. -/
+example : dqDfa.check 0 (· == 0) k8s_validJWTTokenAnnotationValueRegex = true ∧
+    tokenDfa.check 0 (fun q => q == 1 || q == 2) k8s_validJWTTokenAnnotationValueRegex = false := by decide
+
+/-- S-C06-g: a VirtualServer path may contain `"`, and is also written inside a quoted regex. -/
+example : dqDfa.check 0 (· == 0) validation_pathRegexp = false := by decide
+
+/-! ### non-vacuity: the hypotheses are satisfiable -/
+example : matchB validation_pathRegexp "/tea/green$".toList = true := by decide
+example : matchB k8s_pathRegexp "/a{1}".toList = true := by decide
+example : matchB configs_hashKeyRegexp "${request_uri}${arg_user}".toList = true := by decide
+example : matchB configs_hashKeyRegexp "a;b".toList = false := by decide
+example : matchB validation_escapedStringsFmtRegexp "say \\\"hi\\\"; }".toList = true := by decide
+
 end Nic.Props.C06Regex
